@@ -159,6 +159,21 @@ pub fn tocid_stream(seed: u64, cases: usize, ex: &mut ChildExec) -> Sink {
             let ocid = if v0 { CidGeneric::<64>::new_v0(omh).unwrap() } else { CidGeneric::<64>::new_v1(codec, omh) };
             sink.push(op, imp, if fits { format!("ok {}", show_cid(&ocid)) } else { "size".into() });
             sink.count(if fits { "tocid.fits" } else { "tocid.oversize" });
+            // a prefix declaring another digest length (shorter, or longer but within S): the rebuilt
+            // CID always carries the hash function's full digest, never a cut or padded one
+            if !v0 && fits {
+                for declared in [0usize, 2, mh.digest().len() - 1, (mh.digest().len() + 1).min(s)] {
+                    let mut p2 = uvarint(1);
+                    p2.extend(uvarint(codec));
+                    p2.extend(uvarint(code));
+                    p2.extend(uvarint(declared as u64));
+                    let oracle = hash_oracle(s, "", &p2, &data);
+                    let op = format!("tocid {s} T= {} {} H={oracle}", hex(&p2), hex(&data));
+                    let imp = ex.exec(&op);
+                    sink.push(op, imp, format!("ok {}", show_cid(&cid)));
+                    sink.count("tocid.declared-size-differs");
+                }
+            }
         }
         sink.count(&format!("tocid.code-{code:x}"));
     }
@@ -304,8 +319,36 @@ fn good_block(rng: &mut Rng, code: u64) -> (Block, CidGeneric<64>) {
     let n = *rng.pick(&[1usize, 3, 20]);
     let data = rng.bytes(n);
     let k = Code::try_from(code).unwrap();
-    let cid = CidGeneric::<64>::new_v1(*rng.pick(&[0x55u64, 0x70]), k.digest(&data));
-    (Block { prefix: beetswap::verif::VPrefix::from_cid(&cid).to_bytes(), data }, cid)
+    let codec = *rng.pick(&[0x55u64, 0x70]);
+    let cid = CidGeneric::<64>::new_v1(codec, k.digest(&data));
+    // the prefix may declare a digest length other than the real one (it is only compared with S)
+    let declared = if rng.chance(1, 4) { *rng.pick(&[0u64, 2, 16, 31]) } else { cid.hash().size() as u64 };
+    (Block { prefix: [uvarint(1), uvarint(codec), uvarint(code), uvarint(declared)].concat(), data }, cid)
+}
+
+/// What `process_message` must produce for a message made of good elements only, computed
+/// independently: every block keyed by the CID of its own bytes (last one wins), presences by CID.
+fn expected_base(blocks: &[(CidGeneric<64>, Vec<u8>)], pres: &[(CidGeneric<64>, i32)], w: &Option<beetswap::verif::ProtoWantlist>) -> String {
+    let mut bm: std::collections::BTreeMap<String, String> = Default::default();
+    for (c, d) in blocks {
+        bm.insert(show_cid(c), hex(d));
+    }
+    let mut pm: std::collections::BTreeMap<String, i32> = Default::default();
+    for (c, t) in pres {
+        pm.insert(show_cid(c), *t);
+    }
+    let has_client = !blocks.is_empty() || !pres.is_empty();
+    let wtxt = match w {
+        Some(w) if w.full || !w.entries.is_empty() => format!("{}/{}", w.full as u8, w.entries.iter().map(crate::text::show_entry).collect::<Vec<_>>().join(";")),
+        _ => "N".to_string(),
+    };
+    format!(
+        "ok c={} P={} B={} W={}",
+        has_client as u8,
+        pm.iter().map(|(c, t)| format!("{c}:{t}")).collect::<Vec<_>>().join(","),
+        bm.iter().map(|(c, d)| format!("{c}:{d}")).collect::<Vec<_>>().join(","),
+        wtxt
+    )
 }
 
 /// C16 / C01: message classification with one bad element at every position.
@@ -322,32 +365,43 @@ pub fn procmsg_stream(seed: u64, cases: usize, ex: &mut ChildExec) -> Sink {
         // a custom hasher answering for code 0x99 (ok), 0x98 (custom error), 0x97 (fatal)
         let spec = if rng.chance(1, 2) { "153:o,152:c,151:f" } else { "" };
         let mut base = Message::default();
+        let mut exp_blocks: Vec<(CidGeneric<64>, Vec<u8>)> = vec![];
+        let mut exp_pres: Vec<(CidGeneric<64>, i32)> = vec![];
         let nb = rng.below(4);
         for _ in 0..nb {
+            // sha2-512 does not fit S = 32: only used with S = 64
             let code = *rng.pick(&[0x12u64, 0x12, 0x16, 0x1e]);
-            base.payload.push(good_block(&mut rng, code).0);
+            let (b, cid) = good_block(&mut rng, code);
+            exp_blocks.push((cid, b.data.clone()));
+            base.payload.push(b);
         }
         if !spec.is_empty() && rng.chance(1, 2) {
-            // a block whose CID is produced by the registered hasher
-            base.payload.push(Block { prefix: [uvarint(1), uvarint(0x55), uvarint(0x99), uvarint(9)].concat(), data: rng.bytes(4) });
+            // a block whose CID is produced by the registered hasher (index 1, see cidexec::Scripted)
+            let data = rng.bytes(4);
+            let cid = CidGeneric::<64>::new_v1(0x55, Multihash::<64>::wrap(0x99, &fake_digest(1, &data)).unwrap());
+            exp_blocks.push((cid, data.clone()));
+            base.payload.push(Block { prefix: [uvarint(1), uvarint(0x55), uvarint(0x99), uvarint(9)].concat(), data });
             sink.count("procmsg.custom-hasher-block");
         }
         if nb > 0 && rng.chance(1, 5) {
             // duplicate payload inside one message
             let b = base.payload[0].clone();
+            exp_blocks.push(exp_blocks[0].clone());
             base.payload.push(b);
             sink.count("procmsg.duplicate-block");
         }
         for _ in 0..rng.below(3) {
             let (_, cid) = good_block(&mut rng, 0x12);
-            base.blockPresences.push(BlockPresence { cid: cid.to_bytes(), type_pb: if rng.chance(1, 2) { BlockPresenceType::Have } else { BlockPresenceType::DontHave } });
+            let have = rng.chance(1, 2);
+            exp_pres.push((cid, if have { 0 } else { 1 }));
+            base.blockPresences.push(BlockPresence { cid: cid.to_bytes(), type_pb: if have { BlockPresenceType::Have } else { BlockPresenceType::DontHave } });
         }
         if rng.chance(1, 2) {
             base.wantlist = Some(beetswap::verif::ProtoWantlist { entries: (0..rng.below(3)).map(|_| gen_entry(&mut rng)).collect(), full: rng.chance(1, 2) });
         }
         let op = line(s, spec, &base);
         let base_out = ex.exec(&op);
-        sink.push(op, base_out.clone(), "-".into());
+        sink.push(op, base_out.clone(), expected_base(&exp_blocks, &exp_pres, &base.wantlist));
         sink.count("procmsg.base");
         if base_out.starts_with("fatal") {
             // e.g. a sha2-512-free base under S=32 never is fatal; count to be sure
